@@ -608,6 +608,15 @@ func (r *e1Run) start() error {
 		})
 		server.Data = &e1TaskData{role: "server"}
 		r.s.ResumeDetached(server)
+		// the harness tasks must not run before ServeChannel has attached the channel to its pipeline and
+		// submitted the read loop (nobody can hold the channel earlier); from then on the server task only waits
+		deadline := time.Now().Add(10 * time.Second)
+		for len(r.ex.TaskList()) == 0 {
+			if time.Now().After(deadline) {
+				return fmt.Errorf("ServeChannel did not submit the read loop within 10 s")
+			}
+			time.Sleep(10 * time.Microsecond)
+		}
 	} else {
 		r.pl.ServeChannel(r.ch)
 		r.serveReturned = r.s.Seq()
